@@ -6,6 +6,11 @@ package sut
 import (
 	"fmt"
 	"os"
+	"os/exec"
+	"strings"
+	"sync"
+	"syscall"
+	"time"
 )
 
 var roles = map[string]func(arg string) int{}
@@ -19,4 +24,137 @@ func Main(role, arg string) int {
 		return 3
 	}
 	return f(arg)
+}
+
+// RunChild starts this executable again in the given role and waits for it.
+// Stdout and stderr go to files (a pipe would lose the goroutine dump of a
+// dying process). It returns what the child printed, its exit status and whether
+// the watchdog had to kill it.
+func RunChild(role, arg string, watchdog time.Duration) (stdout, stderr string, rc int, timedOut bool) {
+	p, err := StartChild(role, arg)
+	if err != nil {
+		return "", err.Error(), -1, false
+	}
+	return p.Wait(watchdog)
+}
+
+// Child is a running system-under-test process.
+type Child struct {
+	Cmd      *exec.Cmd
+	outF     *os.File
+	errF     *os.File
+	done     chan struct{}
+	waitErr  error
+	waitOnce sync.Once
+}
+
+func StartChild(role, arg string) (*Child, error) {
+	exe := os.Getenv("VERIF_WORKER")
+	if exe == "" {
+		var err error
+		if exe, err = os.Executable(); err != nil {
+			return nil, err
+		}
+	}
+	dir := os.Getenv("VERIF_TMP")
+	if dir == "" {
+		dir = os.TempDir()
+	}
+	outF, err := os.CreateTemp(dir, "sut-out-*")
+	if err != nil {
+		return nil, err
+	}
+	errF, err := os.CreateTemp(dir, "sut-err-*")
+	if err != nil {
+		return nil, err
+	}
+	cmd := exec.Command(exe, "-role", role, "-rolearg", arg)
+	cmd.Stdout, cmd.Stderr = outF, errF
+	cmd.Env = append(os.Environ(), "GOTRACEBACK=all")
+	if err := cmd.Start(); err != nil {
+		return nil, err
+	}
+	c := &Child{Cmd: cmd, outF: outF, errF: errF, done: make(chan struct{})}
+	go func() {
+		c.waitErr = cmd.Wait()
+		close(c.done)
+	}()
+	return c, nil
+}
+
+// Alive reports whether the process is still running.
+func (c *Child) Alive() bool {
+	select {
+	case <-c.done:
+		return false
+	default:
+		return true
+	}
+}
+
+// Output returns what the child has printed so far.
+func (c *Child) Output() (string, string) {
+	o, _ := os.ReadFile(c.outF.Name())
+	e, _ := os.ReadFile(c.errF.Name())
+	return string(o), string(e)
+}
+
+// Dump asks the child for a goroutine dump (SIGQUIT ends it) and returns its stderr.
+func (c *Child) Dump() string {
+	c.Cmd.Process.Signal(syscall.SIGQUIT)
+	select {
+	case <-c.done:
+	case <-time.After(5 * time.Second):
+		c.Cmd.Process.Kill()
+		<-c.done
+	}
+	_, e := c.Output()
+	return e
+}
+
+func (c *Child) Kill() {
+	c.Cmd.Process.Kill()
+	<-c.done
+	c.cleanup()
+}
+
+func (c *Child) cleanup() {
+	c.waitOnce.Do(func() {
+		c.outF.Close()
+		c.errF.Close()
+		os.Remove(c.outF.Name())
+		os.Remove(c.errF.Name())
+	})
+}
+
+// Wait waits for the child to exit; on watchdog expiry it takes a goroutine dump and kills it.
+func (c *Child) Wait(watchdog time.Duration) (stdout, stderr string, rc int, timedOut bool) {
+	select {
+	case <-c.done:
+	case <-time.After(watchdog):
+		timedOut = true
+		c.Dump()
+	}
+	stdout, stderr = c.Output()
+	rc = c.Cmd.ProcessState.ExitCode()
+	c.cleanup()
+	return
+}
+
+// WaitLine polls the child's stdout for a line with the given prefix and returns the rest of it.
+func (c *Child) WaitLine(prefix string, d time.Duration) (string, bool) {
+	dl := time.Now().Add(d)
+	for time.Now().Before(dl) {
+		o, _ := c.Output()
+		for _, line := range strings.Split(o, "\n") {
+			if strings.HasPrefix(line, prefix) {
+				return strings.TrimPrefix(line, prefix), true
+			}
+		}
+		if !c.Alive() {
+			return "", false
+		}
+		time.Sleep(5 * time.Millisecond)
+	}
+	return "", false
 }
